@@ -206,3 +206,411 @@ def dead_none_tests(repo, modules):
                         out.append((mn, q, c, "`%s` can never hold: %s is always a list (possibly empty); the check it guards "
                                     "is dead" % (ast.unparse(c), src.attr)))
     return out, n, lists
+
+
+def _tokens(name):
+    import re
+    # (case boundaries are found before lowering; a plural is its singular)
+    parts = re.split(r"[_\W]+|(?<=[a-z])(?=[A-Z])", name)
+    return set(t.lower()[:-1] if len(t) > 3 and t.lower().endswith("s") else t.lower() for t in parts if t)
+
+
+def swapped_arguments(repo, modules):
+    """A positional argument whose name says it is parameter j is passed in position i (and the argument in
+    position j does not carry its own parameter's name either): `f(out, PY_force, PY_impl)` against
+    `def f(out, default, force)`.  Callees are resolved by name: methods of the same class first, then a
+    function/method name that is defined once in the analysed modules."""
+    defs = {}
+    for mn in modules:
+        m = repo.module(mn)
+        for q, fn in m.functions().items():
+            defs.setdefault(fn.name, []).append((mn, q, fn))
+    out, n = [], 0
+    for mn in modules:
+        m = repo.module(mn)
+        for q, fn in m.functions().items():
+            for call in ast.walk(fn):
+                if not isinstance(call, ast.Call) or len(call.args) < 2:
+                    continue
+                f = call.func
+                name = f.attr if isinstance(f, ast.Attribute) else (f.id if isinstance(f, ast.Name) else None)
+                cands = defs.get(name) or []
+                if isinstance(f, ast.Attribute) and isinstance(f.value, ast.Name) and f.value.id == "self" and "." in q:
+                    same = [c for c in cands if c[1].rsplit(".", 1)[0] == q.rsplit(".", 1)[0]]
+                    cands = same or cands
+                if len(cands) != 1 or any(isinstance(a, ast.Starred) for a in call.args):
+                    continue
+                callee = cands[0][2]
+                params = [a.arg for a in callee.args.args]
+                if params and params[0] in ("self", "cls") and isinstance(f, ast.Attribute):
+                    params = params[1:]
+                if len(params) < len(call.args):
+                    continue
+                n += 1
+                argn = []
+                for a in call.args:
+                    if isinstance(a, ast.Name):
+                        argn.append(a.id)
+                    elif isinstance(a, ast.Attribute):
+                        argn.append(a.attr)
+                    else:
+                        argn.append(None)
+                for i, an in enumerate(argn):
+                    if an is None:
+                        continue
+                    ti = _tokens(an)
+                    if _tokens(params[i]) & ti:
+                        continue
+                    for j, pj in enumerate(params[:len(argn)]):
+                        if j == i or not (_tokens(pj) <= ti) or len(pj) < 3:
+                            continue
+                        aj = argn[j]
+                        if aj is not None and (_tokens(pj) & _tokens(aj)):
+                            continue   # position j has an argument of its own name
+                        # the two arguments are siblings (PY_force / PY_impl): unrelated names prove nothing
+                        if aj is not None and (_tokens(aj) & ti):
+                            out.append((mn, q, call, "`%s(...)`: argument `%s` is passed as parameter `%s`, while parameter `%s` of %s receives `%s` "
+                                        "- the names say the arguments are in the wrong order" % (name, an, params[i], pj, cands[0][1],
+                                                                                                 aj if aj is not None else "<expression>")))
+    return out, n
+
+
+def overstrict_index_guard(repo, modules):
+    """`... and E < len(S) - 1 and S[E]...`: the bound that protects the subscript `S[E]` excludes the valid index
+    len(S) - 1 (the element is never looked at in the last position).  Exact protections are `E < len(S)` and
+    `E <= len(S) - 1`."""
+    out, n = [], 0
+    for mn in modules:
+        m = repo.module(mn)
+        for q, fn in m.functions().items():
+            for b in ast.walk(fn):
+                if not (isinstance(b, ast.BoolOp) and isinstance(b.op, ast.And)):
+                    continue
+                for i, c in enumerate(b.values):
+                    if not (isinstance(c, ast.Compare) and len(c.ops) == 1 and isinstance(c.ops[0], (ast.Lt, ast.LtE))):
+                        continue
+                    rhs = c.comparators[0]
+                    k = 0
+                    if isinstance(rhs, ast.BinOp) and isinstance(rhs.op, ast.Sub) and isinstance(rhs.right, ast.Constant) \
+                            and isinstance(rhs.right.value, int):
+                        k, rhs = rhs.right.value, rhs.left
+                    if not (isinstance(rhs, ast.Call) and isinstance(rhs.func, ast.Name) and rhs.func.id == "len" and rhs.args):
+                        continue
+                    seq, idx = ast.unparse(rhs.args[0]), ast.unparse(c.left)
+                    uses = [s for v in b.values[i + 1:] for s in ast.walk(v) if isinstance(s, ast.Subscript)
+                            and ast.unparse(s.value) == seq and ast.unparse(s.slice) == idx]
+                    if not uses:
+                        continue
+                    n += 1
+                    last_allowed = -k - (1 if isinstance(c.ops[0], ast.Lt) else 0)      # relative to len(S)
+                    if last_allowed < -1:
+                        out.append((mn, q, c, "`%s` protects `%s[%s]` but also excludes the valid index len(%s) - 1"
+                                    % (ast.unparse(c), seq, idx, seq)))
+    return out, n
+
+
+def _is_reset_value(v):
+    return isinstance(v, ast.Constant) or (isinstance(v, (ast.List, ast.Dict, ast.Tuple, ast.Set))
+                                           and not (getattr(v, "elts", None) or getattr(v, "keys", None))) \
+        or (isinstance(v, ast.Call) and isinstance(v.func, ast.Name) and v.func.id in ("dict", "list", "set", "OrderedDict")
+            and not v.args and not v.keywords)
+
+
+def reset_depths(fn):
+    """{name: deepest loop nesting at which `name = <constant / empty container>` occurs} for names that are
+    assigned more than once in the function (a constant assignment of such a name is a reset)"""
+    from .loader import parent_chain
+    assigns = {}
+    for a in ast.walk(fn):
+        if isinstance(a, ast.Assign):
+            for t in a.targets:
+                for nm in ast.walk(t):
+                    if isinstance(nm, ast.Name) and isinstance(nm.ctx, ast.Store):
+                        assigns.setdefault(nm.id, []).append(a)
+        elif isinstance(a, (ast.AugAssign, ast.For)) and isinstance(getattr(a, "target", None), ast.Name):
+            assigns.setdefault(a.target.id, []).append(a)
+    out = {}
+    for name, lst in assigns.items():
+        if len(lst) < 2:
+            continue
+        for a in lst:
+            if isinstance(a, ast.Assign) and len(a.targets) == 1 and isinstance(a.targets[0], ast.Name) and _is_reset_value(a.value):
+                depth = 0
+                inner = None
+                for p in parent_chain(a):
+                    if p is fn:
+                        break
+                    if isinstance(p, (ast.For, ast.While)):
+                        depth += 1
+                        inner = inner or p
+                    if isinstance(p, (ast.FunctionDef, ast.AsyncFunctionDef)):
+                        break
+                if inner is not None:
+                    # a reset: the same loop assigns the name something else further down
+                    later = [b for b in lst if b is not a and getattr(b, "lineno", 0) > a.lineno
+                             and any(x is b for x in ast.walk(inner))
+                             and not (isinstance(b, ast.Assign) and ast.dump(b.value) == ast.dump(a.value))]
+                    if not later:
+                        continue
+                out[name] = max(out.get(name, 0), depth)
+    return out
+
+
+def lost_reset(repo, modules, baseline):
+    """A variable that the recorded tree re-initialises inside a loop (per-iteration state: a flag, a statement
+    block, a list collected for one item) is now initialised only outside it: what one item sets is still set
+    for the items after it."""
+    out, n = [], 0
+    for mn in modules:
+        m = repo.module(mn)
+        for q, fn in m.functions().items():
+            want = baseline.get("%s.%s" % (mn, q))
+            if not want:
+                continue
+            have = reset_depths(fn)
+            for name, depth in sorted(want.items()):
+                if name not in have:
+                    continue          # the variable is gone or no longer reset anywhere: nothing to compare
+                n += 1
+                if have[name] < depth:
+                    node = [a for a in ast.walk(fn) if isinstance(a, ast.Assign) and len(a.targets) == 1
+                            and isinstance(a.targets[0], ast.Name) and a.targets[0].id == name and _is_reset_value(a.value)][0]
+                    out.append((mn, q, node, "`%s` was re-initialised in the loop for every item (nesting depth %d); it is now "
+                                "initialised at depth %d only: the value one item leaves behind is seen by the items after it"
+                                % (name, depth, have[name])))
+    return out, n
+
+
+def container_flag_in_element_loop(repo, modules, attrs=("wrap",)):
+    """`for x in node.classes: if not node.wrap.c: continue` - inside a loop over the children of N, a test reads
+    N.wrap.* (or N.options.* when asked): the test is the same for every child, so it cannot be the per-child
+    selection the loop body is written for; the sibling emitters test the child (`x.wrap.c`)."""
+    out, n = [], 0
+    for mn in modules:
+        m = repo.module(mn)
+        for q, fn in m.functions().items():
+            for lp in ast.walk(fn):
+                if not (isinstance(lp, ast.For) and isinstance(lp.target, ast.Name) and isinstance(lp.iter, ast.Attribute)
+                        and isinstance(lp.iter.value, ast.Name)):
+                    continue
+                cont, child = lp.iter.value.id, lp.target.id
+                if cont in ("self",):
+                    continue
+                aliases = {}
+                for st in ast.walk(lp):
+                    if isinstance(st, ast.Assign) and len(st.targets) == 1 and isinstance(st.targets[0], ast.Name) \
+                            and isinstance(st.value, ast.Attribute) and isinstance(st.value.value, ast.Name) \
+                            and st.value.value.id == cont and st.value.attr in attrs:
+                        aliases[st.targets[0].id] = st
+                for t in ast.walk(lp):
+                    if not isinstance(t, (ast.If, ast.IfExp)):
+                        continue
+                    n += 1
+                    reads_child = any(isinstance(x, ast.Name) and x.id == child for x in ast.walk(t.test))
+                    for x in ast.walk(t.test):
+                        hit = None
+                        if isinstance(x, ast.Attribute) and isinstance(x.value, ast.Attribute) and isinstance(x.value.value, ast.Name) \
+                                and x.value.value.id == cont and x.value.attr in attrs:
+                            hit = "%s.%s.%s" % (cont, x.value.attr, x.attr)
+                        elif isinstance(x, ast.Attribute) and isinstance(x.value, ast.Name) and x.value.id in aliases:
+                            hit = "%s.%s (= %s.%s)" % (x.value.id, x.attr, cont, aliases[x.value.id].value.attr)
+                        if hit:
+                            out.append((mn, q, t, "inside `for %s in %s.%s` the test reads %s, which is the same for every %s%s"
+                                        % (child, cont, lp.iter.attr, hit, child,
+                                           "; the loop body decides about `%s`" % child if reads_child else "")))
+                            break
+    return out, n
+
+
+def partial_field_update(repo, modules, ratio=0.75):
+    """A method of a record-like class assigns most, but not all, of the fields its constructor defines, all in the
+    same way (`self.f = False`, `self.f = f`, `self.f = self.f or other.f`): the field that is left out keeps its
+    old value (a reset that does not reset, a copy that does not copy)."""
+    out, n = [], 0
+    for mn in modules:
+        m = repo.module(mn)
+        for cls in [c for c in ast.walk(m.tree) if isinstance(c, ast.ClassDef)]:
+            init = [f for f in cls.body if isinstance(f, ast.FunctionDef) and f.name == "__init__"]
+            if not init:
+                continue
+            fields = []
+            for a in init[0].body:
+                if isinstance(a, ast.Assign) and len(a.targets) == 1 and isinstance(a.targets[0], ast.Attribute) \
+                        and isinstance(a.targets[0].value, ast.Name) and a.targets[0].value.id == "self":
+                    fields.append(a.targets[0].attr)
+            if len(fields) < 3 or len(fields) != len(init[0].body) - (1 if ast.get_docstring(init[0]) else 0):
+                continue        # not a plain record
+            for f in cls.body:
+                if not isinstance(f, ast.FunctionDef) or f.name == "__init__":
+                    continue
+                sets, shapes = [], set()
+                for a in f.body:
+                    if isinstance(a, ast.Assign) and len(a.targets) == 1 and isinstance(a.targets[0], ast.Attribute) \
+                            and isinstance(a.targets[0].value, ast.Name) and a.targets[0].value.id == "self":
+                        fld = a.targets[0].attr
+                        sets.append(fld)
+                        shapes.add(ast.dump(a.value).replace(repr(fld), "'@'").replace("'%s'" % fld, "'@'"))
+                if len(sets) < 2:
+                    continue
+                n += 1
+                missing = [x for x in fields if x not in sets]
+                if missing and len(set(sets)) >= ratio * len(fields) and len(shapes) == 1:
+                    out.append((mn, "%s.%s" % (cls.name, f.name), f,
+                                "%s.%s() assigns %s in one and the same way but leaves out %s, which __init__ defines next to them"
+                                % (cls.name, f.name, sorted(set(sets)), missing)))
+    return out, n
+
+
+def flag_read_after_clear(repo, modules, attr="wrap"):
+    """`N.wrap.c = False` (on some path) and later in the same function `... = N.wrap.c` / `f(c=N.wrap.c)`: the value
+    handed on is the one the function itself has just switched off, not the one the declaration was given."""
+    out, n = [], 0
+    for mn in modules:
+        m = repo.module(mn)
+        for q, fn in m.functions().items():
+            clears = {}
+            for a in ast.walk(fn):
+                if isinstance(a, ast.Assign) and len(a.targets) == 1 and isinstance(a.targets[0], ast.Attribute) \
+                        and isinstance(a.targets[0].value, ast.Attribute) and a.targets[0].value.attr == attr \
+                        and isinstance(a.value, ast.Constant) and a.value.value is False:
+                    key = ast.unparse(a.targets[0])
+                    clears.setdefault(key, []).append(a)
+            if not clears:
+                continue
+            for x in ast.walk(fn):
+                if isinstance(x, ast.Attribute) and isinstance(x.ctx, ast.Load) and ast.unparse(x) in clears:
+                    n += 1
+                    first = min(c.lineno for c in clears[ast.unparse(x)])
+                    # a test of the flag is fine (it asks what the state is now); handing the value on is not
+                    par = getattr(x, "_parent", None)
+                    in_test = False
+                    p, child = par, x
+                    while p is not None and not isinstance(p, (ast.stmt,)):
+                        if isinstance(p, (ast.IfExp,)) and child is p.test:
+                            in_test = True
+                        child, p = p, getattr(p, "_parent", None)
+                    if isinstance(p, (ast.If, ast.While)) and any(child is y or any(child is z for z in ast.walk(y)) for y in [p.test]):
+                        in_test = True
+                    if x.lineno > first and not in_test:
+                        out.append((mn, q, x, "`%s` is read at line %d after the function set it to False at line %d: the value "
+                                    "passed on is the switched-off flag" % (ast.unparse(x), x.lineno, first)))
+    return out, n
+
+
+def mixed_indirection_predicates(repo, modules):
+    """One function asks the same declaration both `is_indirect()` (pointer or reference) and `is_pointer()` alone:
+    the second test treats a C++ reference as a value although the first says the function cares about both."""
+    out, n = [], 0
+    for mn in modules:
+        m = repo.module(mn)
+        for q, fn in m.functions().items():
+            uses = {}
+            for c in ast.walk(fn):
+                if isinstance(c, ast.Call) and isinstance(c.func, ast.Attribute) \
+                        and c.func.attr in ("is_pointer", "is_indirect", "is_reference"):
+                    uses.setdefault(ast.unparse(c.func.value), {}).setdefault(c.func.attr, []).append(c)
+            for recv, by in uses.items():
+                n += 1
+                if "is_indirect" in by and ("is_pointer" in by) != ("is_reference" in by):
+                    odd = by.get("is_pointer") or by.get("is_reference")
+                    out.append((mn, q, odd[0], "`%s.%s()` next to `%s.is_indirect()` in the same function: a %s is not "
+                                "covered by this test" % (recv, odd[0].func.attr, recv,
+                                                          "reference" if "is_pointer" in by else "pointer")))
+    return out, n
+
+
+def validation_skips_falsy(repo, modules):
+    """`if x and not isinstance(x, dict): raise ...` - the type check of a user-supplied value is skipped for every
+    falsy value, so `[]`, `''`, `0`, `False` of the wrong type pass the validation and fail later, inside the
+    generator (only None means "not given")."""
+    out, n = [], 0
+    for mn in modules:
+        m = repo.module(mn)
+        for q, fn in m.functions().items():
+            for i in ast.walk(fn):
+                if not isinstance(i, ast.If):
+                    continue
+                if not any(isinstance(x, ast.Raise) for st in i.body for x in ast.walk(st)):
+                    continue
+                t = i.test
+                if not (isinstance(t, ast.BoolOp) and isinstance(t.op, ast.And)):
+                    continue
+                names = [v.id for v in t.values if isinstance(v, ast.Name)]
+                for v in t.values:
+                    if isinstance(v, ast.UnaryOp) and isinstance(v.op, ast.Not) and isinstance(v.operand, ast.Call) \
+                            and isinstance(v.operand.func, ast.Name) and v.operand.func.id == "isinstance" and v.operand.args \
+                            and isinstance(v.operand.args[0], ast.Name):
+                        n += 1
+                        if v.operand.args[0].id in names:
+                            out.append((mn, q, i, "`%s`: the isinstance check is skipped for falsy values of `%s` (an empty list, "
+                                        "'', 0, False are not None)" % (ast.unparse(t), v.operand.args[0].id)))
+    return out, n
+
+
+def memoised_scope_field(repo, modules, documented):
+    """`if not scope.inlocal("f"): scope.f = <computed>` for a field no user can set (it is not a documented format
+    field): the only way the field can already be there is an earlier call with the same scope, so the guard is a
+    cache - the second overload / variant / declaration that shares the scope gets the first one's value."""
+    out, n = [], 0
+    for mn in modules:
+        m = repo.module(mn)
+        for q, fn in m.functions().items():
+            for i in ast.walk(fn):
+                if not isinstance(i, ast.If):
+                    continue
+                t, body = i.test, i.body
+                if isinstance(t, ast.UnaryOp) and isinstance(t.op, ast.Not):
+                    t = t.operand
+                else:
+                    t, body = t, i.orelse
+                if not (isinstance(t, ast.Call) and isinstance(t.func, ast.Attribute) and t.func.attr == "inlocal" and t.args
+                        and isinstance(t.args[0], ast.Constant) and isinstance(t.args[0].value, str)):
+                    continue
+                field, scope = t.args[0].value, ast.unparse(t.func.value)
+                sets = [a for st in body for a in ast.walk(st) if isinstance(a, ast.Assign) and isinstance(a.targets[0], ast.Attribute)
+                        and a.targets[0].attr == field and ast.unparse(a.targets[0].value) == scope]
+                if not sets:
+                    continue
+                n += 1
+                if field not in documented:
+                    out.append((mn, q, i, "`%s.%s` is computed only when the scope does not have it yet, but `%s` is not a "
+                                "documented format field, so only an earlier call can have set it: later variants that share "
+                                "`%s` reuse the first one's value" % (scope, field, field, scope)))
+    return out, n
+
+
+def source_mutated_in_clone_loop(repo, modules):
+    """`for t in variants: new = node.clone()` with a statement in the same loop that changes `node` itself
+    (`node.fmtdict.update(...)`, `node.fmtdict.x = ...`): what is meant for one clone is inherited by every clone
+    made after it."""
+    out, n = [], 0
+    for mn in modules:
+        m = repo.module(mn)
+        for q, fn in m.functions().items():
+            for lp in ast.walk(fn):
+                if not isinstance(lp, (ast.For, ast.While)):
+                    continue
+                srcs = set()
+                for a in ast.walk(lp):
+                    if isinstance(a, ast.Assign) and isinstance(a.value, ast.Call) and isinstance(a.value.func, ast.Attribute) \
+                            and a.value.func.attr == "clone" and isinstance(a.value.func.value, ast.Name):
+                        srcs.add(a.value.func.value.id)
+                for src in srcs:
+                    n += 1
+                    for st in ast.walk(lp):
+                        hit = None
+                        if isinstance(st, ast.Call) and isinstance(st.func, ast.Attribute) and st.func.attr in ("update", "append", "extend", "setdefault"):
+                            base = st.func.value
+                            if isinstance(base, ast.Attribute) and isinstance(base.value, ast.Name) and base.value.id == src \
+                                    and base.attr in ("fmtdict", "options", "user_fmt"):
+                                hit = st
+                        elif isinstance(st, ast.Assign):
+                            for t in st.targets:
+                                if isinstance(t, ast.Attribute) and isinstance(t.value, ast.Attribute) and isinstance(t.value.value, ast.Name) \
+                                        and t.value.value.id == src and t.value.attr in ("fmtdict", "options"):
+                                    hit = st
+                        if hit is not None:
+                            out.append((mn, q, hit, "`%s` changes `%s`, the node every iteration of this loop clones: the setting of one "
+                                        "instantiation/variant is inherited by all clones made after it"
+                                        % (" ".join(ast.unparse(hit).split())[:60], src)))
+    return out, n
